@@ -64,6 +64,10 @@ class Program:
                 self.modules[modname] = ModuleInfo(modname, os.path.relpath(path, repo), is_pkg, tree)
         for m in self.modules.values():
             self._scan(m)
+        self.by_name = {}
+        for mn in sorted(self.modules):
+            for fn in self.modules[mn].funcs.values():
+                self.by_name.setdefault(fn.name, []).append((mn, fn))
 
     def _abs(self, m, level, name):
         if level == 0:
@@ -224,6 +228,7 @@ class Frame:
         self.ret_kind = 'unset'
         self.ret_elts = None
         self.is_closure = False
+        self.local_imports = {}
         self.self_name = None
 
 
@@ -422,8 +427,56 @@ class Translator:
     def st_Pass(self, s, fr): pass
     def st_Break(self, s, fr): pass
     def st_Continue(self, s, fr): pass
-    def st_Import(self, s, fr): pass
-    def st_ImportFrom(self, s, fr): pass
+    def st_Import(self, s, fr):
+        # function-local import: the names shadow module-level ones inside this body
+        for a in s.names:
+            if a.name.split('.')[0] == 'odak':
+                fr.local_imports[a.asname or 'odak'] = ('mod', a.name if a.asname else 'odak')
+            else:
+                fr.local_imports[a.asname or a.name.split('.')[0]] = ('ext', a.name if a.asname else a.name.split('.')[0])
+            fr.env.pop(a.asname or a.name.split('.')[0], None)
+
+    def st_ImportFrom(self, s, fr):
+        m = self.P.modules[fr.modname]
+        tgt = self.P._abs(m, s.level, s.module or '')
+        odak = tgt.split('.')[0] == 'odak'
+        for a in s.names:
+            if a.name == '*':
+                self.notes.add('function-local star import')
+                continue
+            nm = a.asname or a.name
+            if odak:
+                r = self.P.resolve(tgt, a.name) if tgt in self.P.modules else None
+                if r is None and tgt + '.' + a.name in self.P.modules:
+                    r = ('mod', tgt + '.' + a.name)
+                if r is None:
+                    self.notes.add('unresolved local import %s.%s' % (tgt, a.name))
+                    continue
+                fr.local_imports[nm] = r
+            else:
+                fr.local_imports[nm] = ('ext', tgt + '.' + a.name)
+            fr.env.pop(nm, None)
+
+    def resolve_in(self, fr, e):
+        """resolve a dotted expression, function-local imports first"""
+        root = e
+        chain = []
+        while isinstance(root, ast.Attribute):
+            chain.append(root.attr)
+            root = root.value
+        if isinstance(root, ast.Name) and root.id in fr.local_imports and root.id not in fr.env:
+            b = fr.local_imports[root.id]
+            for attr in reversed(chain):
+                if b is None:
+                    return None
+                if b[0] == 'mod':
+                    b = self.P.resolve(b[1], attr)
+                elif b[0] == 'ext':
+                    b = ('ext', b[1] + '.' + attr)
+                else:
+                    return None
+            return b
+        return self.P.resolve_expr(fr.modname, e, fr.env)
     def st_Global(self, s, fr): self.notes.add('global statement')
     def st_Nonlocal(self, s, fr): self.notes.add('nonlocal statement')
     def st_ClassDef(self, s, fr): pass
@@ -830,7 +883,7 @@ class Translator:
             return None, 'scalar'
         if fr.self_name is not None and e.id == fr.self_name:
             return self.self_object(fr), None
-        r = self.P.resolve(fr.modname, e.id)
+        r = fr.local_imports.get(e.id) or self.P.resolve(fr.modname, e.id)
         if r is None or r[0] in ('func', 'class', 'mod', 'ext'):
             return None, 'scalar'
         if r[0] == 'global':
@@ -865,7 +918,7 @@ class Translator:
                     self.kinds[d[e.attr]] = 'scalar'
             v = d[e.attr]
             return v, self.kinds.get(v)
-        r = self.P.resolve_expr(fr.modname, e, fr.env)
+        r = self.resolve_in(fr, e)
         if r is not None:
             if r[0] == 'global':
                 return self.seed('global:%s.%s' % (r[1], r[2]), None), None
@@ -1069,14 +1122,17 @@ class Translator:
             if mth and f.attr not in self.selfattrs.get(fr.self_ns, {}):
                 return self.inline(mth[1], mth[0].modname, mth[0], fr.self_ns, args, kwargs, star, fr)
             # self.<attribute>(...): the attribute holds a callable object (a module, a loss, a function)
-            cv, _ = self.ev(f, fr)
-            if cv is not None and cv in self.vclass:
-                cm = self.find_method(self.vclass[cv], '__call__') or self.find_method(self.vclass[cv], 'forward')
-                if cm is not None:
-                    return self.inline_on(cv, cm, args, kwargs, star, fr)
-            return self.unresolved_call('.' + f.attr, cv, allv, fr)
+            self.attr_class(fr.cls, f.attr)
+            assigned = f.attr in self._attr_kinds.get((fr.cls.modname, fr.cls.name), {}) or f.attr in self.selfattrs.get(fr.self_ns, {})
+            if assigned:
+                cv, _ = self.ev(f, fr)
+                if cv is not None and cv in self.vclass:
+                    cm = self.find_method(self.vclass[cv], '__call__') or self.find_method(self.vclass[cv], 'forward')
+                    if cm is not None:
+                        return self.inline_on(cv, cm, args, kwargs, star, fr)
+                return self.unresolved_call('.' + f.attr, cv, allv, fr)
         # -- statically resolvable names
-        r = self.P.resolve_expr(fr.modname, f, fr.env) if isinstance(f, (ast.Name, ast.Attribute)) else None
+        r = self.resolve_in(fr, f) if isinstance(f, (ast.Name, ast.Attribute)) else None
         if isinstance(f, ast.Name) and f.id in fr.env:
             r = None
         if r is not None:
@@ -1242,6 +1298,12 @@ class Translator:
             return nv, None
         if name in T.BUILTIN_FRESH:
             return None, None
+        cands = self.P.by_name.get(name, [])
+        if len(cands) == 1:
+            # a name no import statement explains, but exactly one odak function has it (e.g. injected by a star import
+            # the resolver does not follow): inline that one
+            self.notes.add('resolved by unique name: %s -> %s' % (name, cands[0][0]))
+            return self.inline(cands[0][1], cands[0][0], None, None, args, kwargs, [], fr)
         return self.unresolved_call(name, None, allv, fr)
 
     def alias_of(self, ys, fr, label, kind=None):
@@ -1384,6 +1446,7 @@ class Translator:
             nf.is_closure = True
             nf.env = dict(closure.env)
             nf.local_funcs = dict(closure.local_funcs)
+            nf.local_imports = dict(closure.local_imports)
             nf.self_name, nf.self_ns, nf.cls = closure.self_name, closure.self_ns, closure.cls
         self.enter_params(nf, fn, args, kwargs)
         try:
